@@ -1,1 +1,291 @@
-/-! # C17 — property theorems (to be filled in) -/
+import JokerVerif.Lemmas.SamplesLemmas
+import Mathlib.Analysis.SpecialFunctions.Trigonometric.Basic
+import Mathlib.Data.Rat.Floor
+import Mathlib.Algebra.Order.Field.Rat
+import Mathlib.Tactic.NormNum
+/-!
+# C17 — sample-table operations preserve the physical orbit and its metadata
+
+Property theorems only.  Tables have any number of rows and columns; index expressions are arbitrary.
+`wrap_K` is treated for an `omega` column in any angular unit: `h` is half a turn in that unit (π for rad, 180
+for deg) and `c = π / h` converts it to radians.
+-/
+set_option linter.unusedSectionVars false
+namespace Samples
+open Real
+
+/-! ## wrap_K -/
+section wrap
+variable {α : Type} [Field α] [LinearOrder α] [IsStrictOrderedRing α] [FloorRing α]
+
+/-- after `wrap_K` every amplitude is non-negative -/
+theorem wrapK_nonneg (h K ω : α) : 0 ≤ (wrapK Int.floor h K ω).1 := by
+  unfold wrapK
+  split
+  · rename_i hK; simp only; linarith
+  · rename_i hK; exact not_lt.mp hK
+
+/-- rows with `K ≥ 0` are not touched at all -/
+theorem wrapK_unchanged (h K ω : α) (hK : 0 ≤ K) : wrapK Int.floor h K ω = (K, ω) := by
+  unfold wrapK; rw [if_neg (not_lt.mpr hK)]
+
+/-- rows with `K < 0`: `K ↦ -K`, and `ω` moves by half a turn modulo a full turn, into `[0, full turn)` -/
+theorem wrapK_moved (h K ω : α) (hh : 0 < h) (hK : K < 0) :
+    (wrapK Int.floor h K ω).1 = -K ∧
+      0 ≤ (wrapK Int.floor h K ω).2 ∧ (wrapK Int.floor h K ω).2 < 2 * h ∧
+      ∃ m : ℤ, (wrapK Int.floor h K ω).2 = ω + h - m * (2 * h) := by
+  unfold wrapK
+  rw [if_pos hK]
+  have h2 : 0 < h + h := by linarith
+  refine ⟨rfl, fmod_nonneg _ h2, ?_, ⌊(ω + h) / (h + h)⌋, ?_⟩
+  · have := fmod_lt (ω + h) h2; simpa [two_mul] using this
+  · simp only [fmod_eq, two_mul]
+
+/-- `wrap_K` is idempotent -/
+theorem wrapK_idem (h K ω : α) :
+    wrapK Int.floor h (wrapK Int.floor h K ω).1 (wrapK Int.floor h K ω).2 = wrapK Int.floor h K ω :=
+  wrapK_unchanged h _ _ (wrapK_nonneg h K ω)
+end wrap
+
+/-- `wrap_K` does not change the RV curve of any row: for every eccentricity `e` and every true anomaly `f`,
+`K' (cos (ω' + f) + e cos ω') = K (cos (ω + f) + e cos ω)` (angles converted to radians by `c = π/h`) -/
+theorem wrapK_same_curve (h c : ℝ) (hh : 0 < h) (hc : c * h = π) (K e ω f : ℝ) :
+    curve Real.cos c (wrapK Int.floor h K ω).1 e (wrapK Int.floor h K ω).2 f = curve Real.cos c K e ω f := by
+  rcases lt_or_ge K 0 with hK | hK
+  · obtain ⟨h1, _, _, m, h4⟩ := wrapK_moved h K ω hh hK
+    rw [h1, h4]
+    unfold curve
+    have e1 : c * (ω + h - m * (2 * h)) = (c * ω + π) - m * (2 * π) := by
+      rw [← hc]; ring
+    have e2 : c * (ω + h - m * (2 * h)) + f = ((c * ω + f) + π) - m * (2 * π) := by
+      rw [← hc]; ring
+    rw [e2, e1, Real.cos_sub_int_mul_two_pi, Real.cos_sub_int_mul_two_pi, Real.cos_add_pi, Real.cos_add_pi]
+    ring
+  · rw [wrapK_unchanged h K ω hK]
+
+/-- the same in radians (`h = π`) and in degrees (`h = 180`) -/
+theorem wrapK_same_curve_rad (K e ω f : ℝ) :
+    curve Real.cos 1 (wrapK Int.floor π K ω).1 e (wrapK Int.floor π K ω).2 f = curve Real.cos 1 K e ω f :=
+  wrapK_same_curve π 1 Real.pi_pos (one_mul _) K e ω f
+
+theorem wrapK_same_curve_deg (K e ω f : ℝ) :
+    curve Real.cos (π / 180) (wrapK Int.floor 180 K ω).1 e (wrapK Int.floor 180 K ω).2 f =
+      curve Real.cos (π / 180) K e ω f :=
+  wrapK_same_curve 180 (π / 180) (by norm_num) (by ring) K e ω f
+
+/-! ## get_time_with_phase / get_t0 -/
+section phase
+variable {α : Type} [Field α]
+
+/-- at the time returned for phase `φ` the mean anomaly `2π (t − t_ref)/P − M0` equals `φ` -/
+theorem time_with_phase_has_phase (twoPi tref P M0 φ : α) (hP : P ≠ 0) (hpi : twoPi ≠ 0) :
+    meanAnomaly twoPi tref P M0 (timeWithPhase twoPi tref P M0 φ) = φ := by
+  unfold meanAnomaly timeWithPhase; field_simp; ring
+
+/-- `get_t0`: mean anomaly zero -/
+theorem t0_has_phase_zero (twoPi tref P M0 : α) (hP : P ≠ 0) (hpi : twoPi ≠ 0) :
+    meanAnomaly twoPi tref P M0 (t0 twoPi tref P M0) = 0 :=
+  time_with_phase_has_phase twoPi tref P M0 0 hP hpi
+end phase
+
+/-- over the reals, with the true `2π` -/
+theorem time_with_phase_has_phase_real (tref P M0 φ : ℝ) (hP : P ≠ 0) :
+    meanAnomaly (2 * π) tref P M0 (timeWithPhase (2 * π) tref P M0 φ) = φ :=
+  time_with_phase_has_phase _ _ _ _ _ hP (by positivity)
+
+/-! ## indexing, masking, copy, mean / std, median_period -/
+section ops
+variable {α : Type}
+
+/-- `samples[i]` (also negative `i`): the one row asked for, all columns from that same row -/
+theorem getInt_rows (t t' : Table α) (i : Int) (h : getInt t i = .ok t') :
+    ∃ k, resolveIndex t.nrows i = .ok k ∧ RowsOf t [k] t' := by
+  unfold getInt at h
+  obtain ⟨k, hk, h2⟩ := bind_ok h
+  exact ⟨k, hk, rowsOf_of_take t t' [k] h2⟩
+
+/-- `samples[index_array]`: rows in the order of the index array, repeated indices repeat the row -/
+theorem getIdx_rows (t t' : Table α) (idx : List Int) (h : getIdx t idx = .ok t') :
+    ∃ ks, List.Forall₂ (fun i k => resolveIndex t.nrows i = .ok k) idx ks ∧ RowsOf t ks t' := by
+  unfold getIdx at h
+  obtain ⟨ks, hk, h2⟩ := bind_ok h
+  exact ⟨ks, mapM_except_forall₂ _ _ _ hk, rowsOf_of_take t t' ks h2⟩
+
+/-- `samples[mask]`: exactly the rows where the mask is true, in table order -/
+theorem getMask_rows (t t' : Table α) (mask : List Bool) (h : getMask t mask = .ok t') :
+    mask.length = t.nrows ∧ RowsOf t (maskPositions mask) t' := by
+  unfold getMask at h
+  split at h
+  · cases h
+  · rename_i hl
+    exact ⟨not_not.mp hl, rowsOf_of_take t t' _ h⟩
+
+/-- `samples[a:b:c]` -/
+theorem getSlice_rows (t t' : Table α) (a b : Option Int) (c : Int) (h : getSlice t a b c = .ok t') :
+    ∃ ks, sliceIndices t.nrows a b c = .ok ks ∧ RowsOf t ks t' := by
+  unfold getSlice at h
+  obtain ⟨ks, hk, h2⟩ := bind_ok h
+  exact ⟨ks, hk, rowsOf_of_take t t' ks h2⟩
+
+/-- a slice (any start / stop / step ≠ 0, Python semantics) only ever selects rows of the table -/
+theorem slice_rows_in_table (n : Nat) (a b : Option Int) (c : Int) (ks : List Nat)
+    (h : sliceIndices n a b c = .ok ks) : ∀ k ∈ ks, k < n := sliceIndices_lt' n a b c ks h
+
+/-- every operation of the property returns a table with the same units, reference epoch, `poly_trend` and
+`n_offsets` (and column names) -/
+theorem ops_preserve_meta [Field α] [LinearOrder α] (sqrt : α → α) (t t' : Table α) :
+    (∀ i, getInt t i = .ok t' → t'.md = t.md ∧ t'.headers = t.headers) ∧
+    (∀ a b c, getSlice t a b c = .ok t' → t'.md = t.md ∧ t'.headers = t.headers) ∧
+    (∀ mask, getMask t mask = .ok t' → t'.md = t.md ∧ t'.headers = t.headers) ∧
+    (∀ idx, getIdx t idx = .ok t' → t'.md = t.md ∧ t'.headers = t.headers) ∧
+    ((copy t).md = t.md ∧ (copy t).headers = t.headers ∧ (copy t).cols = t.cols) ∧
+    (mean t = .ok t' → t'.md = t.md ∧ t'.headers = t.headers) ∧
+    (std sqrt t = .ok t' → t'.md = t.md ∧ t'.headers = t.headers) ∧
+    (∀ i, medianPeriod t i = .ok t' → t'.md = t.md ∧ t'.headers = t.headers) := by
+  refine ⟨?_, ?_, ?_, ?_, ?_, ?_, ?_, ?_⟩
+  · intro i h; obtain ⟨k, _, hr⟩ := getInt_rows t t' i h; exact hr.meta
+  · intro a b c h; obtain ⟨k, _, hr⟩ := getSlice_rows t t' a b c h; exact hr.meta
+  · intro m h; exact (getMask_rows t t' m h).2.meta
+  · intro idx h; obtain ⟨k, _, hr⟩ := getIdx_rows t t' idx h; exact hr.meta
+  · refine ⟨rfl, ?_, ?_⟩
+    · simp [copy, Table.headers]
+    · simp [copy]
+  · intro h; exact mapCols_meta _ t t' h
+  · intro h; exact mapCols_meta _ t t' h
+  · intro i h
+    unfold medianPeriod at h
+    split at h
+    · cases h
+    · split at h
+      · obtain ⟨k, _, hr⟩ := getInt_rows t t' _ h; exact hr.meta
+      · cases h
+
+/-- `wrap_K` keeps the metadata, names and units, and touches only the `K` and `omega` columns -/
+theorem wrapK_preserves_meta [Field α] [LinearOrder α] [IsStrictOrderedRing α] [FloorRing α]
+    (h : α) (t t' : Table α) (hw : wrapKTable Int.floor h t = .ok t') :
+    t'.md = t.md ∧ t'.headers = t.headers ∧
+      List.Forall₂ (fun c c' => c.name ≠ "K" → c.name ≠ "omega" → c' = c) t.cols t'.cols := by
+  unfold wrapKTable at hw
+  split at hw
+  · split at hw
+    · cases hw
+    · simp only [Except.ok.injEq] at hw
+      subst hw
+      refine ⟨rfl, ?_, ?_⟩
+      · simp only [Table.headers, List.map_map]
+        apply List.map_congr_left
+        intro c _
+        simp only [Function.comp, Col.header]
+        split
+        · rfl
+        · split <;> rfl
+      · rw [List.forall₂_map_right_iff]
+        apply List.forall₂_same.mpr
+        intro c _ h1 h2
+        simp [h1, h2]
+  · cases hw
+
+/-- `mean` returns the arithmetic mean of every column as a one-row table -/
+theorem mean_values [Field α] (t t' : Table α) (h : mean t = .ok t') :
+    List.Forall₂ (fun c c' => c.vals ≠ [] ∧ c'.vals = [c.vals.foldl (· + ·) 0 / (c.vals.length : α)]) t.cols t'.cols := by
+  obtain ⟨_, h2⟩ := mapCols_spec _ t t' h
+  refine h2.imp ?_
+  intro c c' hc
+  have := hc.2.2
+  unfold meanOf at this
+  split at this
+  · cases this
+  · rename_i hne
+    simp only [Except.ok.injEq] at this
+    exact ⟨by simpa using hne, this.symm⟩
+end ops
+
+/-- `median_period` returns an actual member row: row `i` of the table, whole, where `P[i]` is the `⌊N/2⌋`-th
+order statistic of the `P` column -/
+theorem median_period_is_member {α : Type} [LinearOrder α] (t t' : Table α) (i : Nat)
+    (h : medianPeriod t i = .ok t') :
+    ∃ cP, t.col? "P" = some cP ∧ i < cP.vals.length ∧
+      (∃ v, medianValue cP.vals = some v ∧ cP.vals[i]? = some v) ∧
+      ∃ k, resolveIndex t.nrows (i : Int) = .ok k ∧ k = i ∧ RowsOf t [k] t' := by
+  unfold medianPeriod at h
+  split at h
+  · cases h
+  · rename_i cP hcP
+    split at h
+    · rename_i hi
+      obtain ⟨hlt, hv⟩ := mem_medianCandidates.mp hi
+      obtain ⟨k, hk, hr⟩ := getInt_rows t t' _ h
+      have := resolveIndex_spec _ _ _ hk
+      exact ⟨cP, hcP, hlt, hv, k, hk, by omega, hr⟩
+    · cases h
+
+/-- and there always is such a row when the table is not empty -/
+theorem median_period_exists {α : Type} [LinearOrder α] (Ps : List α) (h : Ps ≠ []) :
+    ∃ i, i ∈ medianCandidates Ps := List.exists_mem_of_ne_nil _ (medianCandidates_ne_nil h)
+
+/-! ## pack ∘ unpack -/
+section pack
+variable {α : Type} [Field α]
+
+/-- `unpack (pack s)` reproduces, in packing order, the requested names, the units reported by `pack`, and for
+every column the values of the table's column of that name converted to that unit -/
+theorem unpack_pack (t : Table α) (names : List String) (units : String → Option (QUnit α)) (md : Meta α)
+    (rows : List (List α)) (us : List (String × QUnit α)) (h : pack t names units = .ok (rows, us)) :
+    us.map (·.1) = names ∧ (unpack rows us md).md = md ∧
+    List.Forall₂ (fun nm c' => ∃ c, t.col? nm = some c ∧ c'.name = nm ∧
+        c'.unit = (units nm).getD c.unit ∧ c'.vals = c.vals.map (convert c.unit c'.unit))
+      names (unpack rows us md).cols := by
+  unfold pack at h
+  obtain ⟨cols, hcols, h2⟩ := bind_ok h
+  obtain ⟨rows', hrows, h3⟩ := bind_ok h2
+  simp only [pure, Except.pure, Except.ok.injEq, Prod.mk.injEq] at h3
+  obtain ⟨rfl, rfl⟩ := h3
+  have hF := mapM_except_forall₂ _ _ _ hcols
+  have hF' : List.Forall₂ (fun nm (c : String × QUnit α × List α) => ∃ c0, t.col? nm = some c0 ∧
+      c = (nm, (units nm).getD c0.unit, c0.vals.map (convert c0.unit ((units nm).getD c0.unit)))) names cols := by
+    refine hF.imp ?_
+    intro nm c hc
+    unfold packedCol at hc
+    cases hcol : t.col? nm with
+    | none => simp [hcol] at hc
+    | some c0 =>
+      simp only [hcol, Except.ok.injEq] at hc
+      exact ⟨c0, rfl, hc.symm⟩
+  refine ⟨?_, rfl, ?_⟩
+  · rw [List.map_map]
+    have : List.Forall₂ (fun nm x => nm = x) names (cols.map ((fun x : String × QUnit α => x.1) ∘ fun c => (c.1, c.2.1))) := by
+      rw [List.forall₂_map_right_iff]
+      refine hF'.imp ?_
+      rintro nm c ⟨c0, _, rfl⟩; rfl
+    rw [List.forall₂_eq_eq_eq] at this
+    exact this.symm
+  · rw [unpack_cols _ _ _ _ hrows, List.forall₂_map_right_iff]
+    refine hF'.imp ?_
+    rintro nm c ⟨c0, hc0, rfl⟩
+    exact ⟨c0, hc0, rfl, rfl, rfl⟩
+
+/-- the converted values denote the same physical quantities, and are the very same numbers when the unit is kept -/
+theorem pack_values_physical (src dst : QUnit α) (v : α) (h : dst.scale ≠ 0) :
+    convert src dst v * dst.scale = v * src.scale ∧ (dst = src → convert src dst v = v) :=
+  ⟨convert_physical src dst v h, fun e => by subst e; exact convert_self _ v h⟩
+end pack
+
+/-! ## non-vacuity -/
+
+-- K < 0 with omega in degrees: K flips, omega moves by 180 modulo 360 into [0, 360)
+example : wrapK Int.floor (180 : ℚ) (-2) 200 = (2, 20) := by
+  have : ⌊((200 : ℚ) + 180) / (180 + 180)⌋ = 1 := by rw [Int.floor_eq_iff]; norm_num
+  simp only [wrapK, fmod, this]; norm_num
+example : wrapK Int.floor (180 : ℚ) 3 400 = (3, 400) := by norm_num [wrapK]
+-- hypotheses of the phase theorem are satisfiable
+example : meanAnomaly (44/7 : ℚ) 55000 3 (1/2) (timeWithPhase (44/7) 55000 3 (1/2) (1/4)) = 1/4 :=
+  time_with_phase_has_phase _ _ _ _ _ (by norm_num) (by norm_num)
+-- a two-column, three-row table with metadata (`Samples.exTable`): index array [-1, 0], mask, reversed slice
+example : (getIdx exTable [-1, 0]).toOption.map (·.cols.map (·.vals)) = some [[2, 3], [7, -1]] := by decide +kernel
+example : (getMask exTable [true, false, true]).toOption.map (·.cols.map (·.vals)) = some [[3, 2], [-1, 7]] := by
+  decide +kernel
+example : (getSlice exTable none none (-1)).toOption.map (·.cols.map (·.vals)) = some [[2, 1, 3], [7, 5, -1]] := by
+  decide +kernel
+example : (getIdx exTable [-1, 0]).toOption.map (·.md.polyTrend) = some 2 := by decide +kernel
+
+end Samples
